@@ -218,7 +218,8 @@ func setStatus(u *unstructured.Unstructured, ready bool, obsGen int64) {
 	u.Object["status"] = st
 }
 
-func (o SObj) build(ownerNS string) *unstructured.Unstructured {
+// BuildFor builds the stored object; ownerNS is the namespace of the PKO owner (canonical annotation form).
+func (o SObj) BuildFor(ownerNS string) *unstructured.Unstructured {
 	u := &unstructured.Unstructured{Object: map[string]interface{}{}}
 	u.SetGroupVersionKind(schema.GroupVersionKind{Group: Group, Version: "v1", Kind: o.Kind})
 	u.SetNamespace(o.NS)
@@ -252,7 +253,8 @@ func (o SObj) build(ownerNS string) *unstructured.Unstructured {
 	return u
 }
 
-func (p PObj) build() corev1alpha1.ObjectSetObject {
+// Build turns a scenario phase object into the API type.
+func (p PObj) Build() corev1alpha1.ObjectSetObject {
 	u := unstructured.Unstructured{Object: map[string]interface{}{}}
 	u.SetGroupVersionKind(schema.GroupVersionKind{Group: Group, Version: "v1", Kind: p.Kind})
 	u.SetNamespace(p.NS)
@@ -309,7 +311,7 @@ func annRefsStr(s string) string {
 
 func keyStr(k verifstore.Key) string { return k.Kind + "/" + k.Namespace + "/" + k.Name }
 
-func objStr(u *unstructured.Unstructured) string {
+func ObjStr(u *unstructured.Unstructured) string {
 	rev := u.GetAnnotations()[RevAnn]
 	if rev == "" {
 		rev = "-"
@@ -344,7 +346,7 @@ func objStr(u *unstructured.Unstructured) string {
 		annRefsStr(u.GetAnnotations()[OwnersAnn]), rev, l, u.GetLabels()[PkgLabel], payload, u.GetGeneration(), f, d, ready, og)
 }
 
-func eventsStr(log []*verifstore.Request) string {
+func EventsStr(log []*verifstore.Request) string {
 	var out []string
 	for _, r := range log {
 		if r.DryRun {
@@ -398,6 +400,75 @@ func eventsStr(log []*verifstore.Request) string {
 
 // ---------- execution
 
+// ApplyEnv performs one third-party operation on the store.
+func ApplyEnv(env *Env, e EnvOp) {
+	k := verifstore.Key{Group: Group, Kind: e.Kind, Namespace: e.NS, Name: e.Name}
+	switch e.Op {
+	case "reown":
+		env.Store.Mutate(k, func(u *unstructured.Unstructured) { u.SetOwnerReferences(toOwnerRefs(e.Owners)) })
+	case "setRev":
+		env.Store.Mutate(k, func(u *unstructured.Unstructured) {
+			a := u.GetAnnotations()
+			if a == nil {
+				a = map[string]string{}
+			}
+			if e.Rev == "" {
+				delete(a, RevAnn)
+			} else {
+				a[RevAnn] = e.Rev
+			}
+			if len(a) == 0 {
+				a = nil
+			}
+			u.SetAnnotations(a)
+		})
+	case "setPayload":
+		env.Store.Mutate(k, func(u *unstructured.Unstructured) { u.Object["spec"] = map[string]interface{}{"v": e.Payload} })
+	case "setReady":
+		env.Store.Mutate(k, func(u *unstructured.Unstructured) { setStatus(u, e.Ready, e.ObsGen) })
+	case "delete":
+		env.Store.Remove(k)
+	case "recreate":
+		if cur := env.Store.Peek(k); cur != nil {
+			env.Store.Mutate(k, func(u *unstructured.Unstructured) { u.SetFinalizers(nil) })
+			env.Store.Remove(k)
+			n := &unstructured.Unstructured{Object: map[string]interface{}{}}
+			n.SetGroupVersionKind(cur.GroupVersionKind())
+			n.SetNamespace(cur.GetNamespace())
+			n.SetName(cur.GetName())
+			lbl := map[string]string{}
+			for _, l := range []string{verifstore.CacheLabel, PkgLabel} {
+				if v, ok := cur.GetLabels()[l]; ok {
+					lbl[l] = v
+				}
+			}
+			if len(lbl) > 0 {
+				n.SetLabels(lbl)
+			}
+			n.Object["spec"] = cur.Object["spec"]
+			env.Store.Put(n)
+		}
+	case "removeFinalizer":
+		env.Store.Mutate(k, func(u *unstructured.Unstructured) { u.SetFinalizers(nil) })
+	case "relabel":
+		env.Store.Mutate(k, func(u *unstructured.Unstructured) {
+			l := u.GetLabels()
+			if l == nil {
+				l = map[string]string{}
+			}
+			if e.Pkg == "" {
+				delete(l, PkgLabel)
+			} else {
+				l[PkgLabel] = e.Pkg
+			}
+			if len(l) == 0 {
+				l = nil
+			}
+			u.SetLabels(l)
+		})
+	}
+}
+
 func (s Scn) key(kind, ns, name string) verifstore.Key {
 	return verifstore.Key{Group: Group, Kind: kind, Namespace: ns, Name: name}
 }
@@ -407,7 +478,7 @@ func Exec(scheme *runtime.Scheme, fl Flavour, s Scn) string {
 	env := NewEnv(scheme)
 	rec := fl.Build(env)
 	for _, o := range s.Store {
-		env.Store.Put(o.build(s.Owner.NS))
+		env.Store.Put(o.BuildFor(s.Owner.NS))
 	}
 	if s.Force {
 		os.Setenv("PKO_FORCE_ADOPTION", "1")
@@ -434,71 +505,7 @@ func Exec(scheme *runtime.Scheme, fl Flavour, s Scn) string {
 			if e.At != writes {
 				continue
 			}
-			k := s.key(e.Kind, e.NS, e.Name)
-			switch e.Op {
-			case "reown":
-				env.Store.Mutate(k, func(u *unstructured.Unstructured) { u.SetOwnerReferences(toOwnerRefs(e.Owners)) })
-			case "setRev":
-				env.Store.Mutate(k, func(u *unstructured.Unstructured) {
-					a := u.GetAnnotations()
-					if a == nil {
-						a = map[string]string{}
-					}
-					if e.Rev == "" {
-						delete(a, RevAnn)
-					} else {
-						a[RevAnn] = e.Rev
-					}
-					if len(a) == 0 {
-						a = nil
-					}
-					u.SetAnnotations(a)
-				})
-			case "setPayload":
-				env.Store.Mutate(k, func(u *unstructured.Unstructured) { u.Object["spec"] = map[string]interface{}{"v": e.Payload} })
-			case "setReady":
-				env.Store.Mutate(k, func(u *unstructured.Unstructured) { setStatus(u, e.Ready, e.ObsGen) })
-			case "delete":
-				env.Store.Remove(k)
-			case "recreate":
-				if cur := env.Store.Peek(k); cur != nil {
-					env.Store.Mutate(k, func(u *unstructured.Unstructured) { u.SetFinalizers(nil) })
-					env.Store.Remove(k)
-					n := &unstructured.Unstructured{Object: map[string]interface{}{}}
-					n.SetGroupVersionKind(cur.GroupVersionKind())
-					n.SetNamespace(cur.GetNamespace())
-					n.SetName(cur.GetName())
-					lbl := map[string]string{}
-					for _, l := range []string{verifstore.CacheLabel, PkgLabel} {
-						if v, ok := cur.GetLabels()[l]; ok {
-							lbl[l] = v
-						}
-					}
-					if len(lbl) > 0 {
-						n.SetLabels(lbl)
-					}
-					n.Object["spec"] = cur.Object["spec"]
-					env.Store.Put(n)
-				}
-			case "removeFinalizer":
-				env.Store.Mutate(k, func(u *unstructured.Unstructured) { u.SetFinalizers(nil) })
-			case "relabel":
-				env.Store.Mutate(k, func(u *unstructured.Unstructured) {
-					l := u.GetLabels()
-					if l == nil {
-						l = map[string]string{}
-					}
-					if e.Pkg == "" {
-						delete(l, PkgLabel)
-					} else {
-						l[PkgLabel] = e.Pkg
-					}
-					if len(l) == 0 {
-						l = nil
-					}
-					u.SetLabels(l)
-				})
-			}
+			ApplyEnv(env, e)
 		}
 		writes++
 	}
@@ -510,7 +517,7 @@ func Exec(scheme *runtime.Scheme, fl Flavour, s Scn) string {
 	}
 	phase := corev1alpha1.ObjectSetTemplatePhase{Name: "p", Class: s.Class}
 	for _, p := range s.Objects {
-		phase.Objects = append(phase.Objects, p.build())
+		phase.Objects = append(phase.Objects, p.Build())
 	}
 	ctx := context.Background()
 	var outcome string
@@ -568,8 +575,8 @@ func Exec(scheme *runtime.Scheme, fl Flavour, s Scn) string {
 	}
 	var objs []string
 	for _, u := range env.Store.Snapshot() {
-		objs = append(objs, objStr(u))
+		objs = append(objs, ObjStr(u))
 	}
 	sort.Strings(objs)
-	return outcome + " # " + eventsStr(env.Store.Log) + " # " + strings.Join(objs, ";")
+	return outcome + " # " + EventsStr(env.Store.Log) + " # " + strings.Join(objs, ";")
 }
